@@ -1128,7 +1128,18 @@ def _json_check(res, v, recs, sname, st, batch, depth):
         bump(res, "idempotence_held")
     else:
         mz = re.sub(rb"(^|[\s\[,])-0(?=[\s\],]|$)", rb"\g<1>0", Yin) == Yout
-        c = shrunk(lambda rs: (lambda w: w.ok and yidem(w.stdout, reordered)[0] == "mismatch")(ywrite(rs)))
+        # (the reduction renames keys, which changes their sorted order -- C01-F6 -- so its predicate compares the two texts as
+        #  multisets of lines, blind to re-ordering; it only decides which leaves the signature names, never whether there is a violation)
+        def lines_of(t):
+            return sorted(re.sub(rb"^(\s*)- ", rb"\1  ", ln) for ln in t.split(b"\n"))
+
+        def still_differs(rs):
+            w = ywrite(rs)
+            if not w.ok:
+                return False
+            r_ = R.mlr(bargv, stdin=w.stdout)
+            return r_.ok and lines_of(r_.stdout) != lines_of(w.stdout)
+        c = shrunk(still_differs)
         add_violation(res, {"kind": "idempotence", "format": v.fmt, "variant": v.name, "where": "text",
                             "delta": "minus-zero->zero" if mz else "other", "class": c},
                       f"{v.name}: mlr --yaml cat is not idempotent on its own output (needs leaves of class [{c}])",
@@ -1147,7 +1158,7 @@ def json_cases(chk):
             if i % 4 == 3:
                 case["batch"] = ["--records-per-batch", str(1 + (i // 4) % 2)]
             cases.append(case)
-        for i in range(2 if q else 12):
+        for i in range(1 if q else 12):
             for big in ("long", "deep", "numbers"):
                 cases.append({"variant": v.name, "seed": f"{chk.seed}/jsonbig/{v.name}/{big}/{i}", "focus": None, "big": big,
                               "nstyles": 1 if q else 3})
